@@ -40,4 +40,7 @@ def untranslated : List String := []
 /-- names of the translated definitions -/
 def translated : List String := ["GetRand_seedBT_1(p_BlockTimestamp)", "GetRand_seedBH_1(read_new_big_Int_SetBytes_SHA256_p_BlockHash,seedBT)", "GetRand_seedTI_1(read_new_big_Int_SetBytes_SHA256_p_TxInitiator,seedBT)", "GetRand_seedSum_1(seedBT,seedBH)", "GetRand_seedSum_2(seedSum,seedTI)", "GetRand_cond_1(p_Oracle)", "GetRand_seedOS_1(read_new_big_Int_SetBytes_SHA256_p_OracleSeed,seedBT)", "GetRand_seedSum_3(seedSum,seedOS)", "GetRand_precision_1()"]
 
+/-- every rejecting guard of the translated functions, in source order -/
+def guards : List String := ["Keeper.RequestRandom: blockInterval > uint64(math.MaxInt64-currentHeight)", "Keeper.RequestRandom: requestContextID, err := k.RequestService(ctx, consumer, serviceFeeCap); err != nil", "Keeper.RequestService: provider, err := sdk.AccAddressFromBech32(bindings[prng.Intn(len(bindings))].Provider); err != nil", "msgServer.RequestRandom: request, err := m.Keeper.RequestRandom( ctx, consumer, msg.BlockInterval, msg.Oracle, msg.ServiceFeeCap, ); err != nil"]
+
 end Irismod.Gen.PureRandom
